@@ -385,7 +385,12 @@ class FieldWrapper(Wrapper):
                 # NOTE: also pass the prefix to the boolean optional action, because it needs to add it
                 # to the generated negative flags as well.
                 _arg_options["action"] = BooleanOptionalAction
-                _arg_options["_conflict_prefix"] = self.prefix
+                conflict_prefix = self.prefix
+                if DashVariant(FieldWrapper.add_dash_variants) == DashVariant.DASH:
+                    # the positive option strings are spelled with dashes only: same for the prefix
+                    # of an explicit negative option.
+                    conflict_prefix = conflict_prefix.replace("_", "-")
+                _arg_options["_conflict_prefix"] = conflict_prefix
 
         else:
             # "Plain" / simple argument.
